@@ -30,12 +30,14 @@ m('c17_s04_no_join','C17',D,
 '''            handle
                 .join()
                 .map_err(|e| DebuggerError::PreviousRunPanic(format!("{e:?}")))?;''','''            drop(handle);''','run() does not wait for the previous parser thread')
-m('c17_s07_revert_fixB_final_send','C17',D,
-'''            if is_done.load(Ordering::SeqCst) {
+m('c17_s07_final_send_blocking_again','C17',D,
+'''            if !send_unless_restarted(&sender, &is_done, event) {
                 return;
-            }
-
-            match result {''','''            match result {''','aborted parse delivers its final event with a blocking send')
+            }''','''            sender.send(event).expect(CHANNEL_CLOSED_PANIC);''','the final event is delivered with a blocking send again (fix F1 reverted for the final event, fix B still in place)')
+m('c17_s14_breakpoint_send_blocking_again','C17',D,
+'''                        if !send_unless_restarted(&rsender, &is_done_signal, event) {
+                            return true;
+                        }''','''                        rsender.send(event).expect(CHANNEL_CLOSED_PANIC);''','breakpoint events are delivered with a blocking send again (fix F1 reverted for breakpoint events)')
 m('c17_s08_revert_fixA','C17','vm/src/lib.rs',
 '''                return Err(state);
             }
@@ -51,12 +53,12 @@ m('c17_s09_breakpoints_snapshot','C17',D,
         ));
         let is_done = Arc::clone(&self.is_done);''','parser thread works on a snapshot of the breakpoint set taken at run()')
 m('c17_s10_error_at_zero_is_eof','C17',D,
-'''                Err(error) => sender
-                    .send(DebuggerEvent::Error(error.to_string()))''','''                Err(error) if matches!(error.location, pest::error::InputLocation::Pos(0)) && input.is_empty() => sender
-                    .send(DebuggerEvent::Eof)
-                    .expect(CHANNEL_CLOSED_PANIC),
-                Err(error) => sender
-                    .send(DebuggerEvent::Error(error.to_string()))''','a failing parse of the empty input is reported as Eof')
+'''                Err(error) => DebuggerEvent::Error(error.to_string()),''','''                Err(error)
+                    if matches!(error.location, pest::error::InputLocation::Pos(0)) && input.is_empty() =>
+                {
+                    DebuggerEvent::Eof
+                }
+                Err(error) => DebuggerEvent::Error(error.to_string()),''','a failing parse of the empty input is reported as Eof')
 m('c17_s11_skip_repeated_position','C17',D,
 '''                    let contains_rule = {
                         let lock = breakpoints.lock().expect(POISONED_LOCK_PANIC);
